@@ -28,7 +28,9 @@ Proof. exact only_own_unmodified. Qed.
 Print Assumptions C44_only_own_unmodified.
 
 (* The MAC is checked first: nothing is accepted (not even parsed) unless the tag over all preceding
-   bytes verifies and the ticket has at least 16+32 bytes. *)
+   bytes verifies and the ticket has at least 16+32 bytes.  The model also fixes the state of the caller's
+   buffer after the call (ticket_buf_after: untouched unless the MAC verified, the received tag is never
+   overwritten); the harness compares it with the real buffer on every case. *)
 Theorem C44_mac_before_parse : forall mac ctr key t s,
   decrypt_ticket mac ctr key t = Some s -> mac_ok mac key t = true.
 Proof. exact decrypt_mac_ok. Qed.
@@ -119,3 +121,21 @@ Theorem C44_prop_of_model_policy : forall k tb p col ks K table pol,
   kf_C44 i = 0 -> prop_C44 i (run_C44 i) = true.
 Proof. exact prop_C44_of_model_policy. Qed.
 Print Assumptions C44_prop_of_model_policy.
+
+(* CENTRAL THEOREM.  For every well-formed input (wf_C44: op 1 - the supplied HMAC value equals the
+   presented tag only for the issued ticket under its own key, and the issued ticket decrypts to the issued
+   state: the symbolic reading of the HMAC column; op 2 - state fits its length prefixes, 16-byte IV,
+   32-byte HMAC value, key stream at least as long as the plaintext; op 3 - decodable) outside finding
+   class 1 the property predicate evaluated by the harness holds of the model's output: accepted tickets
+   are the issued ones, the buffer is untouched unless the MAC verified, encryptTicket's layout decrypts
+   back to the state, and a resumption satisfies the whole policy. *)
+Theorem C44_prop_of_model : forall i, wf_C44 i = true -> kf_C44 i = 0 -> prop_C44 i (run_C44 i) = true.
+Proof. exact prop_C44_of_model. Qed.
+Print Assumptions C44_prop_of_model.
+(* generated cases (an own ticket, a single-bit flip in the ciphertext, an encryptTicket case) satisfy
+   wf_C44; the own ticket is accepted and the flipped one rejected *)
+Example C44_wf_examples :
+  wf_C44 ex_own = true /\ wf_C44 ex_bitflip = true /\ wf_C44 ex_enc = true /\
+  (exists a b c d buf, run_C44 ex_own = VL [VZ 1; a; b; c; d; buf]) /\
+  (exists buf, run_C44 ex_bitflip = VL [VZ 0; buf]).
+Proof. exact wf_examples_lemma. Qed.
